@@ -18,6 +18,7 @@ import (
 	"github.com/boombuler/barcode/code128"
 	"github.com/boombuler/barcode/datamatrix"
 	"github.com/boombuler/barcode/pdf417"
+	"github.com/boombuler/barcode/qr"
 )
 
 func ints(s string) []int {
@@ -46,6 +47,28 @@ func writeInts(w *bufio.Writer, xs []int) {
 		w.WriteString(strconv.Itoa(x))
 	}
 	w.WriteByte(']')
+}
+
+// harness numbering: level 0..3 = L, M, Q, H; mode 0 Auto, 1 Numeric, 2 AlphaNumeric, 3 Unicode (as cmd/drive)
+func encodeQR(content string, level, mode int) (out []int, version int, ok bool) {
+	defer func() {
+		if r := recover(); r != nil {
+			out, version, ok = []int{-1}, 0, false
+		}
+	}()
+	lv := []qr.ErrorCorrectionLevel{qr.L, qr.M, qr.Q, qr.H}[level]
+	md := []qr.Encoding{qr.Auto, qr.Numeric, qr.AlphaNumeric, qr.Unicode}[mode]
+	bits, v, err := qr.VerifBitStream(content, lv, md)
+	if err != nil {
+		return nil, 0, false
+	}
+	out = make([]int, len(bits))
+	for i, x := range bits {
+		if x {
+			out[i] = 1
+		}
+	}
+	return out, v, true
 }
 
 var padFlag = flag.Int("pad", 0, "dm: number of pad codewords to append")
@@ -112,7 +135,7 @@ func encode(sym string, content []int) (out []int, ok bool) {
 }
 
 func main() {
-	sym := flag.String("sym", "", "pdf | aztec | c128 | dm")
+	sym := flag.String("sym", "", "pdf | aztec | c128 | dm | qr")
 	alpha := flag.String("alphabet", "", "comma separated byte / rune values")
 	maxlen := flag.Int("maxlen", 3, "maximal suffix length")
 	prefix := flag.String("prefix", "", "comma separated fixed prefix")
@@ -129,6 +152,35 @@ func main() {
 	cur := append([]int{}, pre...)
 	var rec func()
 	rec = func() {
+		if *sym == "qr" {
+			b := make([]byte, len(cur))
+			for i, c := range cur {
+				b[i] = byte(c)
+			}
+			for level := 0; level < 4; level++ {
+				for mode := 0; mode < 4; mode++ {
+					out, v, ok := encodeQR(string(b), level, mode)
+					w.WriteString(`{"sym":"qr","content":`)
+					writeInts(w, cur)
+					w.WriteString(`,"p":[` + strconv.Itoa(level) + "," + strconv.Itoa(mode) + `],"v":` + strconv.Itoa(v) + `,"out":`)
+					writeInts(w, out)
+					if ok {
+						w.WriteString(`,"ok":true}` + "\n")
+					} else {
+						w.WriteString(`,"ok":false}` + "\n")
+					}
+				}
+			}
+			if len(cur)-len(pre) >= *maxlen {
+				return
+			}
+			for _, a := range A {
+				cur = append(cur, a)
+				rec()
+				cur = cur[:len(cur)-1]
+			}
+			return
+		}
 		out, ok := encode(*sym, cur)
 		w.WriteString(`{"sym":"` + *sym + `","content":`)
 		writeInts(w, cur)
